@@ -14,7 +14,7 @@ use ebml_iterable::TagWriter;
 pub static DEF: PropDef = PropDef {
     id: "C11",
     level: "exploration",
-    rule: "each case: one specification (zoo or random forest of masters with leaves at any depth, trailing and intermediate global placeholders with random bounds) and a random sample of valid chains of open masters (built by depth-first extension under the reference path matcher, depth <= 5 quick / 7 thorough, each chain master known- or unknown-size). For every chain and EVERY element of the specification: writer side — a fresh real TagWriter is driven through the chain's Starts (must all be accepted) and the element is written (masters as Start, also with the unknown-size option): Ok <=> reference match of the declared path against the chain, rejection must be UnexpectedTag carrying the element id; reader side — the same (chain, element) pair is rendered by the reference encoder (after a preceding complete root element so that the position is fixed) and read by the real strict iterator: the element must be emitted iff the reference accepts it against the chain that remains after closing the unknown-size masters it ends, otherwise HierarchyError carrying its id; mid-document variant: the tail chain[j..] (all unknown-size, nothing in front) followed by an element with a fully named path that ends all of it (root element, sibling or declared ancestor of chain[j]) — the element must be emitted. distinct = (path-shape class of the element: ids-only / trailing global / intermediate global, bound class, chain depth, verdict, side); non-trivial iff the chain is non-empty.",
+    rule: "each case: one specification (zoo or random forest of masters with leaves at any depth, trailing and intermediate global placeholders with random bounds) and a random sample of valid chains of open masters (built by depth-first extension under the reference path matcher, depth <= 5 quick / 7 thorough, each chain master known- or unknown-size). For every chain and EVERY element of the specification: writer side — a fresh real TagWriter is driven through the chain's Starts (must all be accepted) and the element is written (masters as Start and as an empty Full item, each also with the unknown-size option): Ok <=> reference match of the declared path against the chain, rejection must be UnexpectedTag carrying the element id; reader side — the same (chain, element) pair is rendered by the reference encoder (after a preceding complete root element so that the position is fixed) and read by the real strict iterator: the element must be emitted iff the reference accepts it against the chain that remains after closing the unknown-size masters it ends, otherwise HierarchyError carrying its id; mid-document variant: the tail chain[j..] (all unknown-size, nothing in front) followed by an element with a fully named path that ends all of it (root element, sibling or declared ancestor of chain[j]) — the element must be emitted. distinct = (path-shape class of the element: ids-only / trailing global / intermediate global, bound class, chain depth, verdict, side); non-trivial iff the chain is non-empty.",
     assumptions: &["reference path semantics = spec.rs::ref_path_match / ref_closes (pattern match with backtracking; globals never close)", "reader-side pairs where the element both closes an unknown-size master and would be a valid child of the full chain are ambiguous and skipped (counted)", "a chain master with a placeholder in its path gets unknown size only if no master further down the chain would end it (same declared path or declared ancestor)"],
     cases_quick: 15_000,
     cases_thorough: 200_000,
@@ -116,8 +116,10 @@ fn run(c: &mut Case) {
         for e in &spec.elems {
             let expect = ref_path_match(&e.path, chain);
             // ---------------- writer side
-            for unknown_variant in [false, true] {
-                if unknown_variant && e.ty != Ty::Master {
+            // presentations: element / master Start with default size, master Start with unknown size, and the master as
+            // an (empty) Full item with default and with unknown size
+            for (unknown_variant, full_variant) in [(false, false), (true, false), (false, true), (true, true)] {
+                if (unknown_variant || full_variant) && e.ty != Ty::Master {
                     continue;
                 }
                 let mut w = TagWriter::new(ScriptedWrite::new());
@@ -138,12 +140,13 @@ fn run(c: &mut Case) {
                 if !chain_ok {
                     break;
                 }
-                let call = WCall::Write(sample_item(e), if unknown_variant { SizeOpt::Unknown } else { SizeOpt::Default });
+                let item = if full_variant { Item::Full(e.id, vec![]) } else { sample_item(e) };
+                let call = WCall::Write(item, if unknown_variant { SizeOpt::Unknown } else { SizeOpt::Default });
                 let r = do_call(&mut w, &call);
                 c.eval();
                 c.count("writer_pairs");
                 let wit = || J::obj().set("side", J::s("writer")).set("spec", spec.to_json()).set("chain", chain_desc()).set("element", J::s(spec.path_str(e))).set("call", J::s(call.short())).set("reference_verdict", J::Bool(expect)).set("writer_result", J::s(r.short()));
-                let sigtail = format!("{}/{}{}", shape(e), if e.ty == Ty::Master { "master" } else { "leaf" }, if unknown_variant { "-unknown-size" } else { "" });
+                let sigtail = format!("{}/{}{}", shape(e), if e.ty == Ty::Master { "master" } else { "leaf" }, if unknown_variant && full_variant { "-full-unknown-size" } else if unknown_variant { "-unknown-size" } else if full_variant { "-full" } else { "" });
                 match (&r, expect) {
                     (WRes::Ok, true) => c.count("writer_accept"),
                     (WRes::Err(WErr::UnexpectedTag { id, .. }), false) if *id == e.id => c.count("writer_reject"),
